@@ -178,3 +178,183 @@ Theorem C03_hist_example_run :
 Proof. exact (conj ex_preA (conj ex_runA (conj (proj1 ex_stA_shape)
          (conj (proj1 (proj2 ex_stA_shape)) (proj1 ex_wfA))))). Qed.
 Print Assumptions C03_hist_example_run.
+
+(* ---- C03n: "the node count of any handle equals the size of the unique reduced diagram of its
+   function under the current order" (DD/BuildCanon.v: build_bdd / build_bcdd / build_zbdd construct the
+   reduced diagram of a function of the levels in a table of their own; canonical_count s e = node
+   count of the diagram built from e's function under s's order; proofs in DD/BuildCanonProofs.v,
+   DD/BuildCanonBcdd.v, DD/BuildCanonZbdd.v, DD/BuildCanonAll.v) ---- *)
+From OxiVerif Require Import DD.Build DD.BuildProofs DD.ApplyBcdd DD.ApplyBcddProofs DD.FamSpec DD.ZbddOps DD.ZbddOpsProofs DD.Iso
+  DD.BuildCanon DD.BuildCanonProofs DD.BuildCanonBcdd DD.BuildCanonZbdd DD.BuildCanonAll.
+
+(* the statement of the clause, for every snapshot the checker bool_kind_ok_b accepts (well-formed
+   BDD / BCDD / ZBDD table) and every existing edge: the diagram can be built and has count_reach nodes *)
+Theorem C03_node_count_canonical : forall s e, bool_kind_ok_b s = true -> ref_ok s (eref e) ->
+  canonical_count s e = Some (count_reach s e).
+Proof. exact node_count_canonical. Qed.
+Print Assumptions C03_node_count_canonical.
+
+Theorem C03_node_count_canonical_handles : forall s h, bool_kind_ok_b s = true -> In h (s_handles s) ->
+  canonical_count s (snd h) = Some (count_reach s (snd h)).
+Proof. exact node_count_canonical_handles. Qed.
+Print Assumptions C03_node_count_canonical_handles.
+
+Theorem C03_node_count_canonical_checker : forall s,
+  bool_kind_ok_b s = true <-> BddOK s \/ BcOK s \/ ZbddOK s.
+Proof. exact bool_kind_ok_b_spec. Qed.
+Print Assumptions C03_node_count_canonical_checker.
+
+(* the built table: same kind and order, accepted by the same checker, root exists *)
+Theorem C03_node_count_canonical_build_kind : forall s f, bool_kind_ok_b s = true ->
+  exists s' e', build_kind (s_kind s) (s_v2l s) (s_l2v s) f = Some (s', e') /\
+    bool_kind_ok_b s' = true /\ s_kind s' = s_kind s /\
+    s_v2l s' = s_v2l s /\ s_l2v s' = s_l2v s /\ ref_ok s' (eref e').
+Proof. exact build_kind_ok. Qed.
+Print Assumptions C03_node_count_canonical_build_kind.
+
+(* build yields a well-formed table whose edge denotes the function (restricted to the n levels) *)
+Theorem C03_node_count_canonical_build_bdd : forall v2l l2v f, order_ok v2l l2v ->
+  exists s e, build_bdd v2l l2v f = Some (s, e) /\ BddOK s /\
+    s_v2l s = v2l /\ s_l2v s = l2v /\ s_handles s = nil /\ etag e = false /\
+    Den s (eref e) (fun c => f (ctrunc (length l2v) c)).
+Proof. exact build_bdd_ok. Qed.
+Print Assumptions C03_node_count_canonical_build_bdd.
+
+Theorem C03_node_count_canonical_build_bcdd : forall v2l l2v f, order_ok v2l l2v ->
+  exists s e, build_bcdd v2l l2v f = Some (s, e) /\ BcOK s /\
+    s_v2l s = v2l /\ s_l2v s = l2v /\ s_handles s = nil /\
+    DenC s e (fun c => f (ctrunc (length l2v) c)).
+Proof. exact build_bcdd_ok. Qed.
+Print Assumptions C03_node_count_canonical_build_bcdd.
+
+(* ZBDD: the family of the sets of true levels on which f holds ... *)
+Theorem C03_node_count_canonical_build_zbdd : forall v2l l2v f, order_ok v2l l2v ->
+  exists s e, build_zbdd v2l l2v f = Some (s, e) /\ ZbddOK s /\
+    s_v2l s = v2l /\ s_l2v s = l2v /\ s_handles s = nil /\ etag e = false /\
+    ZDen s (eref e) (PZ f 0 (length l2v) (fun _ => 0)).
+Proof. exact build_zbdd_ok. Qed.
+Print Assumptions C03_node_count_canonical_build_zbdd.
+
+(* ... i.e. the Boolean view of the root (what sem_edge evaluates) is f *)
+Theorem C03_node_count_canonical_build_zbdd_view : forall v2l l2v f, order_ok v2l l2v ->
+  exists s e, build_zbdd v2l l2v f = Some (s, e) /\ ZbddOK s /\
+    forall c, bchoice c ->
+      semz s (S (nlevels s)) 0 (eref e) c = Some (f (ctrunc (length l2v) c)).
+Proof. exact build_zbdd_view. Qed.
+Print Assumptions C03_node_count_canonical_build_zbdd_view.
+
+(* a function of the n levels only is denoted exactly *)
+Theorem C03_node_count_canonical_build_bdd_den : forall v2l l2v f, order_ok v2l l2v ->
+  levels_only (length l2v) f ->
+  exists s e, build_bdd v2l l2v f = Some (s, e) /\ BddOK s /\ Den s (eref e) f.
+Proof. exact build_bdd_den. Qed.
+Print Assumptions C03_node_count_canonical_build_bdd_den.
+
+Theorem C03_node_count_canonical_build_bcdd_den : forall v2l l2v f, order_ok v2l l2v ->
+  levels_only (length l2v) f ->
+  exists s e, build_bcdd v2l l2v f = Some (s, e) /\ BcOK s /\ DenC s e f.
+Proof. exact build_bcdd_den. Qed.
+Print Assumptions C03_node_count_canonical_build_bcdd_den.
+
+(* construction inside an arbitrary existing table of the kind *)
+Theorem C03_node_count_canonical_build_bdd_from : forall cnt s lvl f c0, BddOK s -> lvl + cnt = nlevels s ->
+  exists s' r, build_bdd_from s lvl cnt f c0 = Some (s', r) /\ BddOK s' /\ extends s s' /\
+    Den s' r (fun c => f (cmerge lvl cnt c0 c)).
+Proof. exact build_bdd_from_ok. Qed.
+Print Assumptions C03_node_count_canonical_build_bdd_from.
+
+Theorem C03_node_count_canonical_build_bcdd_from : forall cnt s lvl f c0, BcOK s -> lvl + cnt = nlevels s ->
+  exists s' e, build_bcdd_from s lvl cnt f c0 = Some (s', e) /\ BcOK s' /\ extends s s' /\
+    DenC s' e (fun c => f (cmerge lvl cnt c0 c)).
+Proof. exact build_bcdd_from_ok. Qed.
+Print Assumptions C03_node_count_canonical_build_bcdd_from.
+
+Theorem C03_node_count_canonical_build_zbdd_from : forall cnt s lvl f c0, ZbddOK s -> lvl + cnt = nlevels s ->
+  exists s' r, build_zbdd_from s lvl cnt f c0 = Some (s', r) /\ ZbddOK s' /\ extends s s' /\
+    ZDen s' r (PZ f lvl cnt c0).
+Proof. exact build_zbdd_from_ok. Qed.
+Print Assumptions C03_node_count_canonical_build_zbdd_from.
+
+(* what the leaves of the construction evaluate the function at *)
+Theorem C03_node_count_canonical_cmerge : forall cnt lvl c0 c l,
+  cmerge lvl cnt c0 c l = if andb (Nat.leb lvl l) (Nat.ltb l (lvl + cnt)) then c l else c0 l.
+Proof. exact cmerge_spec. Qed.
+Print Assumptions C03_node_count_canonical_cmerge.
+
+(* UNIQUENESS: every reference / edge of every table of the kind (any manager, any history) that
+   denotes f has as many nodes as the built diagram, and its sub-diagram is isomorphic to it *)
+Theorem C03_node_count_canonical_unique_bdd : forall s r f v2l l2v, BddOK s -> order_ok v2l l2v ->
+  length l2v = nlevels s -> Den s r (fun c => f (ctrunc (length l2v) c)) ->
+  exists s' e', build_bdd v2l l2v f = Some (s', e') /\ BddOK s' /\
+    count_reach s (E r) = count_reach s' e' /\
+    exists R, iso s s' R /\ R r (eref e').
+Proof. exact bdd_count_is_build. Qed.
+Print Assumptions C03_node_count_canonical_unique_bdd.
+
+Theorem C03_node_count_canonical_unique_bcdd : forall s e f v2l l2v, BcOK s -> order_ok v2l l2v ->
+  length l2v = nlevels s -> DenC s e (fun c => f (ctrunc (length l2v) c)) ->
+  exists s' e', build_bcdd v2l l2v f = Some (s', e') /\ BcOK s' /\
+    count_reach s e = count_reach s' e' /\ etag e = etag e' /\
+    exists R, iso s s' R /\ R (eref e) (eref e').
+Proof. exact bcdd_count_is_build. Qed.
+Print Assumptions C03_node_count_canonical_unique_bcdd.
+
+Theorem C03_node_count_canonical_unique_zbdd : forall s r f v2l l2v, ZbddOK s -> order_ok v2l l2v ->
+  length l2v = nlevels s -> ZDen s r (PZ f 0 (length l2v) (fun _ => 0)) ->
+  exists s' e', build_zbdd v2l l2v f = Some (s', e') /\ ZbddOK s' /\
+    count_reach s (E r) = count_reach s' e' /\
+    exists R, iso s s' R /\ R r (eref e').
+Proof. exact zbdd_count_is_build. Qed.
+Print Assumptions C03_node_count_canonical_unique_zbdd.
+
+(* between any two tables of a kind: same denotation => isomorphic sub-diagrams *)
+Theorem C03_node_count_canonical_iso_bdd : forall s1 s2 r1 r2 phi, BddOK s1 -> BddOK s2 ->
+  nlevels s1 = nlevels s2 -> Den s1 r1 phi -> Den s2 r2 phi ->
+  exists R, iso s1 s2 R /\ R r1 r2.
+Proof. exact bdd_diagram_unique. Qed.
+Print Assumptions C03_node_count_canonical_iso_bdd.
+
+Theorem C03_node_count_canonical_iso_bcdd : forall s1 s2, BcOK s1 -> BcOK s2 -> nlevels s1 = nlevels s2 ->
+  forall e1 e2 phi, DenC s1 e1 phi -> DenC s2 e2 phi ->
+  etag e1 = etag e2 /\ exists R, iso s1 s2 R /\ R (eref e1) (eref e2).
+Proof. exact bcdd_diagram_unique. Qed.
+Print Assumptions C03_node_count_canonical_iso_bcdd.
+
+Theorem C03_node_count_canonical_iso_zbdd : forall s1 s2, ZbddOK s1 -> ZbddOK s2 -> nlevels s1 = nlevels s2 ->
+  forall r1 r2 P, ZDen s1 r1 P -> ZDen s2 r2 P ->
+  exists R, iso s1 s2 R /\ R r1 r2.
+Proof. exact zbdd_diagram_unique. Qed.
+Print Assumptions C03_node_count_canonical_iso_zbdd.
+
+(* isomorphic sub-diagrams have the same number of nodes *)
+Theorem C03_node_count_canonical_iso_count : forall s1 s2 R, iso s1 s2 R -> arity_ok s1 -> arity_ok s2 ->
+  forall e1 e2, R (eref e1) (eref e2) -> count_reach s1 e1 = count_reach s2 e2.
+Proof. exact iso_count. Qed.
+Print Assumptions C03_node_count_canonical_iso_count.
+
+(* in terms of a function of the variables: [lvl_fun (s_v2l s) g] is g under the table's order *)
+Theorem C03_node_count_canonical_bfun : forall s r (g : bfun), BddOK s -> ref_ok s r ->
+  (forall a, bfun_of s r a = g a) ->
+  exists s' e', build_bdd (s_v2l s) (s_l2v s) (lvl_fun (s_v2l s) g) = Some (s', e') /\ BddOK s' /\
+    count_reach s (E r) = count_reach s' e'.
+Proof. exact bdd_node_count_bfun. Qed.
+Print Assumptions C03_node_count_canonical_bfun.
+
+(* the hypotheses are satisfiable, the numbers are the expected ones, the order matters *)
+Theorem C03_node_count_canonical_examples :
+  bool_kind_ok_b ex_snap = true /\ bool_kind_ok_b ex_bcdd = true /\ bool_kind_ok_b ex_zbdd = true /\
+  canonical_count ex_snap (ex_edge (RN 3)) = Some 5%N /\ count_reach ex_snap (ex_edge (RN 3)) = 5%N /\
+  canonical_count ex_bcdd (mkEdge (RN 2) true) = Some 3%N /\ count_reach ex_bcdd (mkEdge (RN 2) true) = 3%N /\
+  canonical_count ex_zbdd (ex_edge (RN 2)) = Some 4%N /\ count_reach ex_zbdd (ex_edge (RN 2)) = 4%N.
+Proof. exact ex_canonical_counts. Qed.
+Print Assumptions C03_node_count_canonical_examples.
+
+Theorem C03_node_count_canonical_order_matters :
+  size_of (build_bdd (0 :: 1 :: 2 :: 3 :: nil) (0 :: 1 :: 2 :: 3 :: nil) (lvl_fun (0 :: 1 :: 2 :: 3 :: nil) ex_pairs)) = Some 6%N /\
+  size_of (build_bdd (0 :: 2 :: 1 :: 3 :: nil) (0 :: 2 :: 1 :: 3 :: nil) (lvl_fun (0 :: 2 :: 1 :: 3 :: nil) ex_pairs)) = Some 8%N /\
+  size_of (build_bcdd (0 :: 1 :: 2 :: 3 :: nil) (0 :: 1 :: 2 :: 3 :: nil) (lvl_fun (0 :: 1 :: 2 :: 3 :: nil) ex_pairs)) = Some 5%N /\
+  size_of (build_bcdd (0 :: 2 :: 1 :: 3 :: nil) (0 :: 2 :: 1 :: 3 :: nil) (lvl_fun (0 :: 2 :: 1 :: 3 :: nil) ex_pairs)) = Some 7%N /\
+  size_of (build_zbdd (0 :: 1 :: 2 :: 3 :: nil) (0 :: 1 :: 2 :: 3 :: nil) (lvl_fun (0 :: 1 :: 2 :: 3 :: nil) ex_pairs)) = Some 9%N /\
+  size_of (build_zbdd (0 :: 2 :: 1 :: 3 :: nil) (0 :: 2 :: 1 :: 3 :: nil) (lvl_fun (0 :: 2 :: 1 :: 3 :: nil) ex_pairs)) = Some 10%N.
+Proof. exact ex_order_matters. Qed.
+Print Assumptions C03_node_count_canonical_order_matters.
